@@ -724,6 +724,15 @@ void f_range (int code) {
         from = (--sp)->u.number;
         if (code & 0x10)
           from = v->size - from;
+        /* clamp as 64-bit values (slice_array clamps the same way) before narrowing to int */
+        if (from < 0)
+          from = 0;
+        if (from > v->size)
+          from = v->size;
+        if (to >= v->size)
+          to = v->size - 1;
+        if (to < -1)
+          to = -1;
         put_array (slice_array (v, (int)from, (int)to));
         break;
       }
@@ -809,6 +818,11 @@ void f_extract_range (int code) {
         from = (--sp)->u.number;
         if (code)
           from = v->size - from;
+        /* clamp as 64-bit values (slice_array clamps the same way) before narrowing to int */
+        if (from < 0)
+          from = 0;
+        if (from > v->size)
+          from = v->size;
         put_array (slice_array (v, (int)from, (int)(v->size - 1)));
         break;
       }
